@@ -9,6 +9,7 @@ import (
 	"os/exec"
 	"path/filepath"
 	"runtime"
+	"sort"
 	"strings"
 	"syscall"
 	"testing"
@@ -189,6 +190,48 @@ func TestC20Rapid(t *testing.T) {
 		lastStale := ""
 		noWatcher := false // auto-refresh is on but the watcher could not be created (descriptor shortage)
 		check := func(t *rapid.T) {
+			// half of the time the first thing asked of the cache after the step is Refresh() and the error report,
+			// before any device query: that alone must already reflect the current directories
+			if m.auto && !noWatcher && rapid.Bool().Draw(t, "errorsFirst") {
+				errKeys := func(c *cdi.Cache) string {
+					_ = c.Refresh()
+					var ks []string
+					for k := range c.GetErrors() {
+						ks = append(ks, k)
+					}
+					sort.Strings(ks)
+					return strings.Join(ks, "\n")
+				}
+				start := time.Now()
+				for {
+					ref, _ := cdi.NewCache(cdi.WithSpecDirs(m.dirs...), cdi.WithAutoRefresh(false))
+					want := errKeys(ref)
+					// (directory-level entries exist only in auto mode: compare file-level keys and the missing-directory ones the manual reference cannot have)
+					got := errKeys(cache)
+					strip := func(v string) string {
+						var out []string
+						for _, l := range strings.Split(v, "\n") {
+							isDir := false
+							for _, d := range m.dirs {
+								if l == filepath.Clean(d) {
+									isDir = true
+								}
+							}
+							if !isDir && l != "" {
+								out = append(out, l)
+							}
+						}
+						return strings.Join(out, "\n")
+					}
+					if strip(got) == strip(want) {
+						break
+					}
+					if time.Since(start) > 10*time.Second {
+						fail("Refresh() and GetErrors(), asked before any device query, do not reflect the current directories 10 s after the last change\ncache reports:\n%s\na new cache reports:\n%s", strip(got), strip(want))
+					}
+					time.Sleep(5 * time.Millisecond)
+				}
+			}
 			if m.auto || lastStale == "" {
 				norm := func(s string) string { return s }
 				if noWatcher {
